@@ -446,7 +446,9 @@ def _wiring(ctx, P):
     am = dict(da_attr_models())
     am[("DataArray", "variable")] = variable
     for dims, core, widths in (([dimsym("AX", "center"), Sym("t"), dimsym("AY", "center")], [[dimsym("AX", "center")]], {AX: (1, 0)}),
-                               ([Sym("t"), dimsym("AY", "center"), dimsym("AX", "center")], [[dimsym("AY", "center"), dimsym("AX", "center")]], {AX: (1, 2), AY: (0, 1)})):
+                               ([Sym("t"), dimsym("AY", "center"), dimsym("AX", "center")], [[dimsym("AY", "center"), dimsym("AX", "center")]], {AX: (1, 2), AY: (0, 1)}),
+                               # stored (y, x) while the signature lists (X, Y): apply_ufunc hands the blocks over as (..., x, y)
+                               ([Sym("t"), dimsym("AY", "center"), dimsym("AX", "center")], [[dimsym("AX", "center"), dimsym("AY", "center")]], {AX: (1, 2), AY: (0, 1)})):
         inst = f"map_overlap wiring, dims {[d.name for d in dims]}, core {[d.name for d in core[0]]}"
         calls.clear()
         ev = Evaluator(P, models={"dask.array.map_overlap": m_overlap}, method_models=mm, attr_models=am)
